@@ -1161,6 +1161,17 @@ class PX:
                         break
             if fv[0] in ('closure', 'fn'):
                 return self.call_closure(st, fv, list(args[1][1]), depth)
+        if name == '<indirect>' and t.get('fop') is not None:
+            # a call through a function pointer whose value is known on this path (a fn item or closure handed to an inlined helper)
+            try:
+                fv = self.operand(st, fid, fn, t['fop'])
+                for _ in range(3):
+                    if fv[0] in ('ref', 'cref'):
+                        fv = self.deref_value(st, fv)
+            except Exception:
+                fv = None
+            if fv is not None and fv[0] in ('closure', 'fn'):
+                return self.call_closure(st, fv, list(args), depth)
         st.events.append(ev)
         self.cur_site = (fn, bi)
         # the std / tinystr summaries are keyed by path suffixes: they must never be applied to a repository function that happens to be
